@@ -3062,7 +3062,9 @@ class Network(Cached):
         """
         DwR = self.sp_diag_sqrt_w()
         sp_Astar = DwR * self.sp_Aplus() * DwR
-        _, evecs = eigsh(sp_Astar, k=1, sigma=self.total_node_weight**2,
+        # the spectrum lies in [-W, W] (W = total node weight); the shift must
+        # stay above it for every scale of the weights (W**2 < W if W < 1)
+        _, evecs = eigsh(sp_Astar, k=1, sigma=2.0*self.total_node_weight,
                          maxiter=100, tol=1e-8)
         ec = evecs.T[0] / np.sqrt(self.node_weights)
         ec *= np.sign(ec[0])
